@@ -1,1 +1,41 @@
-/- C09 property theorems (stub: not built yet) -/
+import ThriftVerif.Gen.Evolve
+/-
+  C09 — schema evolution: unknown fields are tolerated, and preserved when asked.
+  This file holds the part proved over `Gen.Std` (code generated WITHOUT keep_unknown_fields):
+  old↔new compatibility at one struct level. The keep_unknown_fields part (append/write of raw
+  unknown fields, chains, carrying_iff, depth limit) is stated over `Gen.Unknown` further below
+  once that model is built (see docs/C09.md).
+-/
+namespace Props.C09
+open Wire Gen Gen.Std Gen.Evolve
+
+/-- **old reads new**: for every accepted schema, every pair (old struct, new struct = old + any
+number of added fields with fresh ids, at any positions, of any types nested no deeper than the
+protocol's Skip limit), and every well-typed object of the new struct: the bytes the new code writes
+are read without error by the old code, and the object the old code builds encodes to exactly what the
+old code would write for the projected object — every common field keeps its value. -/
+theorem old_reads_new (P : Prog) (hP : SchemaOK P) (hv : P.validateSet = false) (iOld : Nat)
+    (sdOld sdNew : StructDef) (mask : List Bool) (vs : List GoVal) (wsN : List (Nat × WVal)) (f : Nat)
+    (hO : P.structs[iOld]? = some sdOld) (hl : mask.length = sdNew.fields.length)
+    (hproj : proj mask sdNew.fields = sdOld.fields)
+    (hfresh : ∀ g ∈ added mask sdNew.fields, idOf g ∉ sdOld.fields.map idOf)
+    (hwt : WTFields P.structs sdNew.fields vs) (hw : toWFields P sdNew.fields vs = .ok wsN)
+    (hsh : AddedShallow P mask sdNew.fields vs) (hd : depthFields wsN ≤ f) :
+    ∃ fs' wsO, toWFields P sdOld.fields (proj mask vs) = .ok wsO ∧ toWFields P sdOld.fields fs' = .ok wsO ∧
+      ∀ r, readTy P.structs (f + 1) (.struct iOld) (encFields wsN ++ 0 :: r) = some (.strct fs', r) :=
+  Gen.Evolve.old_reads_new P hP hv iOld sdOld sdNew mask vs wsN f hO hl hproj hfresh hwt hw hsh hd
+
+/-- **new reads old**: the new code reads what the old code wrote; common fields keep their value,
+added (optional/default) fields take their initial value (declared default, else zero/nil). -/
+theorem new_reads_old (P : Prog) (hP : SchemaOK P) (hv : P.validateSet = false) (iNew : Nat)
+    (sdOld sdNew : StructDef) (mask : List Bool) (us : List GoVal) (wsO : List (Nat × WVal)) (f : Nat)
+    (hN : P.structs[iNew]? = some sdNew) (hl : mask.length = sdNew.fields.length)
+    (hproj : proj mask sdNew.fields = sdOld.fields)
+    (hadd : ∀ g ∈ added mask sdNew.fields, g.req ≠ .required)
+    (hwt : WTFields P.structs sdOld.fields us) (hw : toWFields P sdOld.fields us = .ok wsO)
+    (hd : depthFields wsO ≤ f) :
+    ∃ fs', (∀ r, readTy P.structs (f + 1) (.struct iNew) (encFields wsO ++ 0 :: r) = some (.strct fs', r)) ∧
+      toWFields P sdOld.fields (proj mask fs') = .ok wsO ∧ added mask fs' = added mask (initVals sdNew) :=
+  Gen.Evolve.new_reads_old P hP hv iNew sdOld sdNew mask us wsO f hN hl hproj hadd hwt hw hd
+
+end Props.C09
